@@ -529,3 +529,37 @@ def is_panic_call(c):
     return (n.startswith("core::panicking::") or n.startswith("std::rt::begin_panic")
             or n.startswith("std::panicking::begin_panic") or n == "core::option::unwrap_failed"
             or n == "core::result::unwrap_failed" or n == "core::option::expect_failed")
+
+
+def places_read(body):
+    """Yield (bb, place_dict, obj) for every place mentioned on the right-hand side / in terminators."""
+    for i, b in enumerate(body.blocks):
+        for s in b["stmts"]:
+            if s["k"] != "assign":
+                continue
+            rv = s["rv"]
+            for key in ("o", "a", "b"):
+                o = rv.get(key)
+                if isinstance(o, dict) and o.get("k") in ("copy", "move"):
+                    yield i, o, s
+            for o in rv.get("ops", []):
+                if o.get("k") in ("copy", "move"):
+                    yield i, o, s
+            if "place" in rv:
+                yield i, rv["place"], s
+        t = b["term"]
+        if t["k"] == "call":
+            for a in t["args"]:
+                if a.get("k") in ("copy", "move"):
+                    yield i, a, t
+            if t["func"].get("k") in ("copy", "move"):
+                yield i, t["func"], t
+        elif t["k"] == "switch" and t["discr"].get("k") in ("copy", "move"):
+            yield i, t["discr"], t
+        elif t["k"] == "assert" and t["cond"].get("k") in ("copy", "move"):
+            yield i, t["cond"], t
+
+
+def short(path):
+    """Readable short form of a def path for messages."""
+    return path.replace("std::result::Result", "Result").replace("std::option::Option", "Option")
